@@ -71,6 +71,10 @@ class Run:
     def need(self, *names):
         """vacuity guard: every named mechanism must have been exercised"""
         missing = [n for n in names if not self.mech.get(n)]
+        if missing and self.violations:
+            # violations were found and reported: they are the verdict (exit 1); the unexercised mechanism is noted
+            print(f'[{self.pid}] note: mechanisms never exercised in this run: {missing}', flush=True)
+            return
         if missing:
             raise Vacuous(f'mechanisms never exercised in this run: {missing}')
 
